@@ -23,7 +23,9 @@ RULE = ("case = generated design (all profiles, biased to shared nets / structs 
         "values x faults (restart.reset, dup.eval, stop.at = examine the file after a seeded prefix); non-trivial = "
         ">=1 signal changed value at >=2 different cycles and >=1 net with >=2 top-level members; distinct = case digest. "
         "25% of the cases keep a second VCD-dumping simulator alive; 6% run a CL design with top-level method ports "
-        "under OpenLoopCLPass (cycles roll over inside method calls) with VCD and text wave enabled")
+        "under OpenLoopCLPass (cycles roll over inside method calls) with VCD and text wave enabled; 5% carry the stdlib "
+        "memory request message and a struct with a user-written __str__ that hides a field through register stages, "
+        "with input sequences that mostly change only the hidden field")
 TIERS = {"quick": {"runs": 1280, "budget_s": 100, "chunk": 4},
          "thorough": {"runs": 250000, "budget_s": 1800, "chunk": 8}}
 REAL = ["VcdGenerationPass", "PrintTextWavePass", "PrepareSimPass.collect_ff_funcs", "Bits.to_vcd_str / bin"]
